@@ -491,3 +491,89 @@ func Hex(b []byte) string {
 	}
 	return fmt.Sprintf("%x", b)
 }
+
+var goroutineHdr = regexp.MustCompile(`(?m)^goroutine (\d+) \[([^\]]+)\]:`)
+
+// parkedStates are goroutine wait reasons that only another goroutine of this
+// process can end (no timer, no I/O, no signal).
+var parkedStates = map[string]bool{"sync.Cond.Wait": true, "chan receive": true, "chan send": true, "semacquire": true,
+	"sync.WaitGroup.Wait": true, "sync.Mutex.Lock": true, "sync.RWMutex.Lock": true, "sync.RWMutex.RLock": true, "select (no cases)": true, "chan receive (nil chan)": true, "chan send (nil chan)": true}
+
+// runtimeSystem are goroutines the runtime keeps for itself.
+var runtimeSystem = map[string]bool{"GC worker (idle)": true, "GC sweep wait": true, "GC scavenge wait": true, "finalizer wait": true, "force gc (idle)": true, "GC assist wait": true, "debug call": true, "trace reader (blocked)": true, "cleanup wait": true}
+
+// AllParked inspects a goroutine dump taken by goroutine `self`: it reports
+// true when every other user goroutine waits on a synchronisation primitive
+// that only a goroutine of this process could release. That is a deadlock by a
+// LOGICAL criterion (nobody is left to run), not by elapsed time.
+func AllParked(dump string, selfRunning bool) bool {
+	ms := goroutineHdr.FindAllStringSubmatch(dump, -1)
+	if len(ms) == 0 {
+		return false
+	}
+	user := 0
+	for _, m := range ms {
+		st := m[2]
+		if i := strings.Index(st, ","); i >= 0 {
+			st = st[:i]
+		}
+		if runtimeSystem[st] {
+			continue
+		}
+		if st == "running" && selfRunning {
+			selfRunning = false // the inspecting goroutine itself
+			continue
+		}
+		if !parkedStates[st] {
+			return false
+		}
+		user++
+	}
+	return user > 0
+}
+
+// EnableParkWatch starts the quiescence oracle for "no lost wake-up, no
+// deadlock": when no Tick/Inflight has happened for about two seconds the
+// goroutines are inspected; if all of them are parked on synchronisation
+// primitives (AllParked) the in-flight scenario is recorded as a violation and
+// the process ends. Elapsed time only triggers the inspection; a state in
+// which some goroutine can still run never produces a verdict.
+func (c *Ctx) EnableParkWatch(sub string) {
+	go func() {
+		last := c.ticks.Load()
+		idle := 0
+		for {
+			time.Sleep(250 * time.Millisecond)
+			t := c.ticks.Load()
+			if t != last {
+				last, idle = t, 0
+				continue
+			}
+			idle++
+			if idle < 8 {
+				continue
+			}
+			buf := make([]byte, 1<<20)
+			n := runtime.Stack(buf, true)
+			dump := string(buf[:n])
+			if !AllParked(dump, true) {
+				idle = 4 // look again in a second
+				continue
+			}
+			d := ""
+			if p := c.inflightP.Load(); p != nil {
+				d = *p
+			}
+			site := "unknown"
+			if m := regexp.MustCompile(`github\.com/Tnze/go-mc/([^\s(]+)\(`).FindStringSubmatch(dump); m != nil {
+				site = m[1]
+			}
+			if len(dump) > 8000 {
+				dump = dump[:8000]
+			}
+			c.violation(sub+"/all-goroutines-parked/"+site, "every goroutine is parked on a synchronisation primitive and nothing can wake them (lost wake-up / deadlock)", map[string]any{"inflight": d}, dump)
+			c.finish(true)
+			os.Exit(4)
+		}
+	}()
+}
